@@ -49,6 +49,13 @@ def _base_members():
             name = name.replace(old, new).replace(old.replace("slides/", "slides/_rels/"), new.replace("slides/", "slides/_rels/"))
             blob = blob.replace(old.encode(), new.encode())
         out[name.replace("\x00", "")] = blob.replace(b"\x00", b"")
+    # the only notes slide is stored as notesSlide1.xml although it belongs to the second slide (notes are numbered in
+    # creation order by PowerPoint and by python-pptx alike)
+    import re
+
+    cur = [re.search(r"notesSlide(\d+)\.xml$", n).group(0) for n in out if re.search(r"notesSlides/notesSlide\d+\.xml$", n)][0]
+    if cur != "notesSlide1.xml":
+        out = {n.replace(cur, "notesSlide1.xml"): b.replace(cur.encode(), b"notesSlide1.xml") for n, b in out.items()}
     return out
 
 
